@@ -29,8 +29,12 @@ pub fn sqr(b: &mut [Word], a: &[Word], memory: &mut Memory) {
     debug_assert!(b.iter().all(|&v| v == 0));
 
     if a.len() <= MAX_LEN_SIMPLE {
+        #[cfg(dashu_verif)]
+        dashu_base::verif::hit(dashu_base::verif::SQR_SIMPLE);
         simple::square(b, a);
     } else {
+        #[cfg(dashu_verif)]
+        dashu_base::verif::hit(dashu_base::verif::SQR_VIA_MUL);
         debug_assert_zero!(mul::add_signed_mul_same_len(b, Sign::Positive, a, a, memory));
     }
 }
